@@ -37,7 +37,14 @@ pub enum Sc {
         k: usize,
         subset: Vec<usize>,
     },
-    Hull { label: String, pts: Vec<[f64; 2]>, polygon: bool },
+    Hull {
+        label: String,
+        pts: Vec<[f64; 2]>,
+        polygon: bool,
+        /// ball pivoting around the outside: (radius, counter-clockwise?)
+        #[serde(default)]
+        pivot: Option<(f64, bool)>,
+    },
 }
 
 type Sp = ([f64; 3], [f64; 3]);
@@ -57,6 +64,8 @@ pub struct HullObs {
     /// (i, j, hull polygon points)
     pub far: OpResult<Option<(usize, usize, Vec<[f64; 2]>)>>,
     pub ccw: OpResult<bool>,
+    /// Ok((indices, centres)) or the error text
+    pub pivot: Option<OpResult<Result<(Vec<usize>, Vec<[f64; 2]>), String>>>,
 }
 
 pub enum Obs {
@@ -264,7 +273,7 @@ fn gen_hull(rng: &mut Rng, tier: Tier) -> Sc {
         }
         let s = rng.below(n);
         pts.rotate_left(s);
-        return Sc::Hull { label: "star-polygon".into(), pts, polygon: true };
+        return Sc::Hull { label: "star-polygon".into(), pts, polygon: true, pivot: None };
     }
     let n = 4 + rng.below(max_n);
     let mut pts = Vec::new();
@@ -293,7 +302,21 @@ fn gen_hull(rng: &mut Rng, tier: Tier) -> Sc {
             }
         }
     }
-    Sc::Hull { label: label.into(), pts, polygon: false }
+    // ball pivoting: generic (tie-free) clouds only, radius a few mean spacings
+    let pivot = if label != "on-circle" && rng.chance(0.7) {
+        let (mut lo, mut hi) = ([f64::INFINITY; 2], [f64::NEG_INFINITY; 2]);
+        for p in &pts {
+            for k in 0..2 {
+                lo[k] = lo[k].min(p[k]);
+                hi[k] = hi[k].max(p[k]);
+            }
+        }
+        let spacing = (((hi[0] - lo[0]) * (hi[1] - lo[1])).max(1e-12) / pts.len() as f64).sqrt();
+        Some((spacing * rng.log_uniform(1.0, 20.0), rng.chance(0.5)))
+    } else {
+        None
+    };
+    Sc::Hull { label: label.into(), pts, polygon: false, pivot }
 }
 
 // ---------------------------------------------------------------------------------------------
@@ -637,8 +660,21 @@ impl Property for C15 {
             } else {
                 observe_points::<3>(sim, pts, order, *radius, queries, *k, subset)
             })),
-            Sc::Hull { pts, .. } => {
+            Sc::Hull { pts, pivot, .. } => {
                 let p2: Vec<Point2> = pts.iter().map(|p| Point2::new(p[0], p[1])).collect();
+                let pivot_obs = pivot.map(|(radius, ccw)| {
+                    sim.op("hull::ball_pivot_with_centers_2d", b, || {
+                        hull::ball_pivot_with_centers_2d(
+                            &p2,
+                            hull::BallPivotStart::StartOnConvex,
+                            hull::BallPivotEnd::EndOnRepeat,
+                            if ccw { AngleDir::Ccw } else { AngleDir::Cw },
+                            radius,
+                        )
+                        .map(|(idx, cs)| (idx, cs.iter().map(|c| [c.x, c.y]).collect()))
+                        .map_err(|e| e.to_string())
+                    })
+                });
                 let hull_idx = sim.op("hull::convex_hull_2d", b, || hull::convex_hull_2d(&p2));
                 let far = sim.op("hull::farthest_pair_indices", b, || {
                     parry2d_f64::shape::ConvexPolygon::from_convex_hull(&p2).map(|poly| {
@@ -647,7 +683,7 @@ impl Property for C15 {
                     })
                 });
                 let ccw = sim.op("hull::point_order_direction", b, || matches!(hull::point_order_direction(&p2), AngleDir::Ccw));
-                Obs::Hull(Box::new(HullObs { hull: hull_idx, far, ccw }))
+                Obs::Hull(Box::new(HullObs { hull: hull_idx, far, ccw, pivot: pivot_obs }))
             }
         }
     }
@@ -821,7 +857,37 @@ impl Property for C15 {
                         stats.bump("probe:more-than-32-points-share-a-coordinate");
                     }
                 }
-                (Sc::Hull { pts, polygon, .. }, Obs::Hull(o)) => {
+                (Sc::Hull { pts, polygon, pivot, .. }, Obs::Hull(o)) => {
+                    if let (Some((radius, _)), Some(po)) = (pivot, &o.pivot) {
+                        let op = "hull::ball_pivot_with_centers_2d";
+                        match po {
+                            OpResult::Panic(m) => out.push(Violation::new("panic", op, m.clone(), &[vi])),
+                            OpResult::Budget(_) => {}
+                            OpResult::Done(Err(_)) => stats.bump("ball-pivot:returned-err"),
+                            OpResult::Done(Ok((idx, centres))) => {
+                                stats.bump("companion:ball-pivot");
+                                stats.add("companion:ball-pivot-steps", centres.len() as u64);
+                                let d2 = |a: [f64; 2], b: [f64; 2]| ((a[0] - b[0]).powi(2) + (a[1] - b[1]).powi(2)).sqrt();
+                                if idx.iter().any(|&i| i >= pts.len()) || (centres.len() + 1 != idx.len() && !idx.is_empty()) {
+                                    out.push(Violation::new("ball-pivot", op, format!("{} indices and {} centres", idx.len(), centres.len()), &[vi]));
+                                } else {
+                                    'steps: for (s, c) in centres.iter().enumerate() {
+                                        let (a, b) = (pts[idx[s]], pts[idx[s + 1]]);
+                                        if (d2(*c, a) - radius).abs() > 1e-6 * radius || (d2(*c, b) - radius).abs() > 1e-6 * radius {
+                                            out.push(Violation::new("ball-pivot", op, format!("step {}: centre {:?} is {} and {} from points {} and {}, radius {}", s, c, d2(*c, a), d2(*c, b), idx[s], idx[s + 1], radius), &[vi]));
+                                            break;
+                                        }
+                                        for (qi, q) in pts.iter().enumerate() {
+                                            if d2(*c, *q) < radius - 1e-6 * radius {
+                                                out.push(Violation::new("ball-pivot", op, format!("step {} ({} -> {}): point {} is {} from the ball centre, inside the radius {}", s, idx[s], idx[s + 1], qi, d2(*c, *q), radius), &[vi]));
+                                                break 'steps;
+                                            }
+                                        }
+                                    }
+                                }
+                            }
+                        }
+                    }
                     let scale_len = pts.iter().fold(0.0f64, |a, p| a.max(p[0].abs()).max(p[1].abs())).max(1e-300);
                     match &o.hull {
                         OpResult::Panic(m) => out.push(Violation::new("panic", "hull::convex_hull_2d", m.clone(), &[vi])),
@@ -988,9 +1054,9 @@ impl Property for C15 {
                     out.push(mk(pts.clone(), order.clone(), queries.clone(), k / 2, subset.clone()));
                 }
             }
-            Sc::Hull { label, pts, polygon } => {
+            Sc::Hull { label, pts, polygon, pivot } => {
                 for p in chunk_removals(pts, 4).into_iter().take(48) {
-                    out.push(Sc::Hull { label: label.clone(), pts: p, polygon: *polygon });
+                    out.push(Sc::Hull { label: label.clone(), pts: p, polygon: *polygon, pivot: *pivot });
                 }
             }
         }
@@ -1016,7 +1082,39 @@ impl Property for C15 {
             Sc::Uniform { .. } => fp.push("sample-uniform".into()),
             Sc::PoissonMesh { .. } => fp.push("sample-poisson".into()),
             Sc::Dense { .. } => fp.push("sample-dense".into()),
-            Sc::Hull { .. } => fp.push("hull".into()),
+            Sc::Hull { pts, pivot, .. } => {
+                fp.push("hull".into());
+                // near-tie: at some reported contact a third input point lies within 1e-5 r of
+                // the ball's boundary (the code discards contacts whose pivot angle is below
+                // 1e-6 rad, so what it does next at such a point is decided by rounding)
+                if let Some((radius, ccw)) = pivot {
+                    let p2: Vec<Point2> = pts.iter().map(|p| Point2::new(p[0], p[1])).collect();
+                    let res = std::panic::catch_unwind(|| {
+                        hull::ball_pivot_with_centers_2d(
+                            &p2,
+                            hull::BallPivotStart::StartOnConvex,
+                            hull::BallPivotEnd::EndOnRepeat,
+                            if *ccw { AngleDir::Ccw } else { AngleDir::Cw },
+                            *radius,
+                        )
+                        .ok()
+                    });
+                    if let Ok(Some((idx, centres))) = res {
+                        'tie: for (s, c) in centres.iter().enumerate() {
+                            for (qi, q) in pts.iter().enumerate() {
+                                if qi == idx[s] || qi == idx[s + 1] {
+                                    continue;
+                                }
+                                let d = ((c.x - q[0]).powi(2) + (c.y - q[1]).powi(2)).sqrt();
+                                if (d - radius).abs() <= 1e-5 * radius {
+                                    fp.push("ball-pivot:third-point-within-1e-5r-of-a-contact-ball".into());
+                                    break 'tie;
+                                }
+                            }
+                        }
+                    }
+                }
+            }
         }
         fp
     }
